@@ -11,6 +11,18 @@ inner = goal[len('(assert (not (=> '):-3]
 sp = inner.index(' ')
 reach, cond = inner[:sp], inner[sp+1:]
 def split_and(c):
+    if c.startswith('(=> '):
+        body=c[4:-1]; d=0
+        for i,ch in enumerate(body):
+            if ch=='(': d+=1
+            elif ch==')': d-=1
+            if d==0 and ch in ' )':
+                cut=i+1 if ch==')' else i
+                ante,cons=body[:cut],body[cut:].strip()
+                ps=split_and(cons)
+                if len(ps)==1: return [c]
+                return ['(=> %s %s)'%(ante,p) for p in ps]
+        return [c]
     if not c.startswith('(and '): return [c]
     body = c[5:-1]; out=[]; d=0; start=0
     for i,ch in enumerate(body+' '):
